@@ -5,9 +5,12 @@ equality = dimension equality / rejection exactly of mismatched sums, comparison
 Tie (`programs`): seeded well- and ill-dimensioned expression programs become one C++ translation unit of
 `requires{...}` probes compiled against /repo's headers; g++'s verdict per line (and the unit it computes) must equal
 the model's (vm_compute), and a second translation unit checks value transparency bit for bit."""
-import os, re, struct
+import os, re, struct, random
 from fractions import Fraction as Fr
 from vlib import guarded_main
+import sys
+sys.path.insert(0, os.path.dirname(os.path.abspath(__file__)))
+import ext
 
 NAMED = {"NoUnit": (0, 0, 0, 0, 0, 0, 0), "Mass": (1, 0, 0, 0, 0, 0, 0), "Length": (0, 1, 0, 0, 0, 0, 0), "Time": (0, 0, 1, 0, 0, 0, 0),
          "Ampere": (0, 0, 0, 1, 0, 0, 0), "Temperature": (0, 0, 0, 0, 1, 0, 0), "Candela": (0, 0, 0, 0, 0, 1, 0), "Mole": (0, 0, 0, 0, 0, 0, 1),
@@ -258,6 +261,167 @@ def build_verdicts(c, progs, G):
     exe1 = c.cxx("verdicts", [tu1], opt="-O0")
     return c.run([exe1])
 
+def ext_prepare(c):
+    """declarations, fixed corpus and seeded statements of the extension (tensors of quantities, math functions, views)"""
+    F = Fr
+    U = lambda n: tuple(F(x) for x in NAMED[n])
+    Dc = ext.Decl
+    D = [Dc("Sc", U("Mass")), Dc("Sc", U("Length")), Dc("Sc", U("Time")), Dc("Sc", U("Temperature")), Dc("Sc", U("Stress")), Dc("Sc", U("NoUnit")),
+         Dc("Sc", U("Force")), Dc("Sc", (F(0), F(1, 3), F(0), F(0), F(0), F(0), F(0))), Dc("Sc", (F(1, 2), F(0), F(-1), F(0), F(0), F(0), F(0))),
+         Dc("Sc", U("Stress"), "ref"), Dc("Sc", U("Length"), "cref"), Dc("Sc", U("NoUnit"), "ref"),
+         Dc("Vec", U("Length")), Dc("Vec", U("Force")), Dc("Vec", U("Length"), "ref"),
+         Dc("Sym", U("Stress")), Dc("Sym", U("NoUnit")), Dc("Sym", None, "plain"), Dc("Sym", U("Stress"), "ref"), Dc("Sym", U("Stress"), "cref"),
+         Dc("T4", U("Stress")), Dc("T4", U("NoUnit")), Dc("T4", U("Stress"), "ref")]
+    V = lambda i: ("var", i)
+    corpus = [
+        # stiffness * strain = stress; sums of tensors need the same unit
+        ("assign", 15, ("mul", V(20), V(16))), ("eval", ("mul", V(20), V(16))), ("assign", 15, V(16)), ("eval", ("add", V(15), V(16))),
+        ("eval", ("add", V(16), V(17))), ("eval", ("sub", V(15), V(17))), ("eval", ("inner", V(15), V(16))), ("eval", ("inner", V(12), V(13))),
+        ("eval", ("dyad", V(15), V(16))), ("assign", 20, ("dyad", V(15), V(16))), ("assign", 20, ("dyad", V(15), V(15))),
+        ("eval", ("mul", V(4), V(16))), ("eval", ("div", V(15), V(4))), ("eval", ("neg", ("mul", V(21), V(15)))),
+        # quotients of rational exponents with different denominators
+        ("eval", ("div", ("sqrt", V(1)), ("cbrt", V(1)))), ("eval", ("div", ("pow", 1, 2, V(1)), ("pow", 1, 3, V(1)))), ("eval", ("div", V(8), V(7))),
+        ("eval", ("div", ("cbrt", V(4)), ("sqrt", V(6)))), ("eval", ("div", ("mul", V(12), V(7)), V(8))),
+        # math functions
+        ("eval", ("sqrt", ("mul", V(4), V(4)))), ("eval", ("cbrt", ("mul", ("mul", V(1), V(1)), V(1)))), ("eval", ("fn", 0, V(4))),
+        ("eval", ("fn", 0, ("div", V(4), V(4)))), ("eval", ("fn", 1, V(5))), ("eval", ("fn", 5, V(4))), ("eval", ("fn", 5, V(5))),
+        ("eval", ("fn", 6, ("mul", ("mul", V(1), V(1)), V(1)))), ("eval", ("abs", ("neg", V(4)))), ("eval", ("add", ("abs", V(4)), V(1))),
+        # tfel::math::square_root itself (the generated programs use it through vsqrt, see PRELUDE)
+        ("eval", ("add", ("sqrtraw", V(4)), ("lit", 0))), ("eval", ("add", ("sqrtraw", V(4)), ("sqrtraw", V(1)))), ("cmp", ("sqrtraw", V(4)), ("lit", 1)),
+        ("eval", ("sqrtraw", V(4))),
+        # references and views
+        ("assign", 9, V(4)), ("assign", 9, V(1)), ("assign", 10, V(1)), ("assign", 18, ("mul", V(20), V(16))), ("assign", 19, V(15)),
+        ("assign", 18, V(16)), ("aelem", 15, V(4)), ("aelem", 15, V(1)), ("aelem", 18, V(4)), ("aelem", 19, V(4)), ("aelem", 17, V(5)), ("aelem", 17, V(4)),
+        ("eval", ("add", ("elem", V(18)), V(9))), ("eval", ("add", ("elem", V(19)), V(10))), ("eval", ("elem", ("mul", V(20), V(16)))),
+        ("scale", 18, V(5)), ("scale", 18, V(4)), ("scale", 15, ("lit", 1)), ("scale", 10, ("lit", 1)), ("eval", ("fn", 0, V(11))), ("eval", ("fn", 0, V(9))),
+        ("eval", ("inner", V(18), V(19))), ("eval", ("mul", V(22), V(18))), ("cmp", V(9), V(4)), ("cmp", V(9), V(10))]
+    rng2 = random.Random(c.seed + 77)
+    gen = ext.GenX(rng2, D, {0: 0, 1: 1, 2: 2, 4: 3})
+    nprog = c.pick(220, 900)
+    progs = corpus + [gen.stmt() for _ in range(nprog)]
+    if c.replay and "xstmt" in c.replay.get("replay", {}):
+        progs.insert(0, eval(c.replay["replay"]["xstmt"]))
+    n = len(progs)
+    nch = c.pick(1, 3)
+    step = (n + nch - 1) // nch
+    return {"D": D, "progs": progs, "ncorpus": len(corpus), "nprog": nprog, "chunks": [(a, min(n, a + step)) for a in range(0, n, step)], "rng": rng2}
+
+
+def ext_compare(c, X, pool):
+    D, progs = X["D"], X["progs"]
+    if X["model"] is None:
+        c.report("xmodel-eval", X["model_err"], {}, False)
+        pool.shutdown()
+        return "model evaluation failed"
+    gpp = {}
+    sqrt_ok = 1
+    for f in X["fut"]:
+        rc, out, err = f.result()
+        if rc != 0:
+            c.report("xrun-verdicts", "extended verdict program failed: " + err[-300:], {}, False)
+            pool.shutdown()
+            return "verdict program failed"
+        for l in out.splitlines():
+            t = l.split()
+            if t[0] == "SQRT":
+                sqrt_ok = int(t[1])
+            else:
+                gpp[int(t[1])] = (int(t[2]), int(t[3]))
+    pool.shutdown()
+    c.log("extension: verdicts compiled and run")
+    if not sqrt_ok:
+        c.notes.append("tfel::math::square_root(quantity) returns a plain number (unit dropped): XSqrt in the seeded statements is spelled "
+                       "tfel::math::power<1, 2u>; the corpus statements that call square_root itself are reported")
+    decls = ", ".join("v%d:%s" % (i, ext.cpp_type(d, cpp_unit)) for i, d in enumerate(D))
+    ncat = {}
+    _report = c.report
+
+    def capped(key, what, replay=None, found_input=True):
+        cat = key.split(":")[0]
+        ncat[cat] = ncat.get(cat, 0) + 1
+        if ncat[cat] <= 4:
+            _report(key, what, replay, found_input)
+    c.report = capped
+    both, nacc, kinds = [], 0, {}
+    SHC = {"Sc": 0, "Vec": 1, "Sym": 2, "T4": 3}
+    for k, s in enumerate(progs):
+        g, gu = gpp[k]
+        m = X["model"][k][0]
+        ok = ext.py_ok(s, D)
+        text = ext.cpp_s(s, k, D).replace("z.v", "v")
+        nacc += g
+        kinds[s[0]] = kinds.get(s[0], 0) + 1
+        c.count(1, ext.coq_s(s), True)
+        if k % 41 == 7:
+            c.sample({"program": text, "model_accepts": bool(m), "gpp_accepts": bool(g), "homogeneous": bool(ok)})
+        rep = {"xstmt": repr(s), "cxx": text, "declarations": decls, "model_accepts": m, "gpp_accepts": g, "homogeneous": ok}
+        if g and not ok:
+            c.report("xunsound:" + text[:120], "g++ ACCEPTS the dimensionally inhomogeneous (or ill-shaped) statement `%s` (declarations: %s)" % (text, decls), rep, True)
+        elif g != m:
+            c.report("xverdict:" + text[:120], "g++ %s `%s` but the model %s it (statement is %shomogeneous)" % (
+                "accepts" if g else "rejects", text, "accepts" if m else "rejects", "" if ok else "not "), rep, True)
+        elif m != (1 if ok else 0):
+            c.report("xmodel-vs-spec:" + text[:120], "model verdict %d differs from the independent dimensional analysis %s on `%s`" % (m, ok, text), rep, True)
+        elif s[0] == "eval" and g == 1:
+            sh, d = ext.py_x(s[1], D)
+            want = [1, SHC[sh]] if d is None else [2, SHC[sh]] + [x for q in d for x in (q.numerator, q.denominator)]
+            if gu != 1 or X["model"][k][1:] != want:
+                c.report("xunit:" + text[:120], "unit of the elements of `%s`: g++ %s the exponents %s given by exact rational arithmetic; the model gives %s" % (
+                    text, "agrees with" if gu == 1 else "DISAGREES with", want[2:], X["model"][k][3:]), rep, True)
+            else:
+                both.append((k, s[1], sh))
+    c.log("extension: verdicts compared: %d accepted of %d" % (nacc, len(progs)))
+    # values, component by component; two translation units compiled in parallel
+    rng = X["rng"]
+    vals = [[round(0.5 + 2.5 * rng.random(), 3) for _ in range(16)] for _ in D]
+    cap = c.pick(110, 500)
+    items = [(k, e) for (k, e, sh) in both][:cap]
+    shapes = {k: sh for (k, e, sh) in both}
+    from concurrent.futures import ThreadPoolExecutor
+    half = (len(items) + 1) // 2
+    with ThreadPoolExecutor(max_workers=2) as ex:
+        futs = [ex.submit(ext.build_values, c, "xvalues%d" % j, part, D, cpp_unit, vals) for j, part in enumerate([items[:half], items[half:]]) if part]
+        outs = [f.result() for f in futs]
+    nval = ncomp = 0
+    for rc, out, err in outs:
+        if rc != 0:
+            c.report("xrun-values", "extended value program failed: " + err[-300:], {}, False)
+            continue
+        got = {}
+        for l in out.splitlines():
+            t = l.split()
+            got[(int(t[1]), t[2])] = [int(x, 16) for x in t[3:]]
+        for (k, tag), q in got.items():
+            if tag != "q":
+                continue
+            pl = got.get((k, "p"))
+            nval += 1
+            ncomp += len(q)
+            text = ext.cpp_e(progs[k][1], D).replace("z.v", "v")
+            if pl is None or len(q) != len(pl) or len(q) != ext.NCOMP[shapes[k]]:
+                c.report("xshape:" + text[:120], "`%s`: %d components with quantities, %s with doubles, the model's shape %s has %d" % (
+                    text, len(q), None if pl is None else len(pl), shapes[k], ext.NCOMP[shapes[k]]), {"xstmt": repr(progs[k])}, True)
+                continue
+            for j, (a, b) in enumerate(zip(q, pl)):
+                fa, fb = struct.unpack("<d", struct.pack("<Q", a))[0], struct.unpack("<d", struct.pack("<Q", b))[0]
+                if a != b and not (fa != fa and fb != fb):
+                    c.report("xvalue:" + text[:120], "`%s` component %d: with quantities %r, the same computation on doubles %r" % (text, j, fa, fb),
+                             {"xstmt": repr(progs[k]), "cxx": text, "values": vals, "qt": fa, "plain": fb}, True)
+                    break
+    c.report = _report
+    if any(v > 4 for v in ncat.values()):
+        c.notes.append("extension: failing programs per category (first 4 of each reported): %s" % ncat)
+    c.coverage["traces_validated_against_impl"] = c.coverage.get("traces_validated_against_impl", 0) + len(progs) + nval
+    c.trusted("props/C20/ext.py generator, printers and the wrapper vsqrt of the probe prelude (square_root when it keeps the unit, else power<1,2>)")
+    return ("%d statements (%d corpus + %d seeded; %s) over %d declarations (qt, qt_ref, const_qt_ref, tvector/stensor/st2tost2<%d> of quantities, "
+            "views of them, one stensor of double), constructs: sums, scalar*tensor, tensor/scalar, st2tost2*stensor, st2tost2*st2tost2, a|b, a^b, element access, "
+            "power, square_root, power<1,3>, abs, %d dimensionless-only std functions; g++ accepted %d; per statement g++ verdict = model verdict = exact "
+            "analysis, element unit computed by g++ = exact exponents = model's; %d accepted expressions (%d components) bit-identical to the computation "
+            "on plain doubles/tensors of doubles; square_root keeps unit: %s" % (
+                len(progs), X["ncorpus"], X["nprog"], ", ".join("%s %d" % kv for kv in sorted(kinds.items())), len(D), ext.N, len(ext.FNS), nacc, nval, ncomp,
+                bool(sqrt_ok)))
+
+
 def main(c):
     rng = c.rng
     F = Fr
@@ -265,6 +429,7 @@ def main(c):
     G.append((F(0), F(2), F(0), F(0), F(0), F(0), F(0)))            # area: StandardUnit, no name
     G.append((F(1, 2), F(0), F(-1), F(0), F(0), F(0), F(0)))        # sqrt(kg)/s: rational exponents
     G.append(tuple(F(x) for x in NAMED["Frequency"]))
+    G.append((F(0), F(1, 3), F(0), F(0), F(0), F(0), F(0)))         # m^(1/3): a second rational denominator
     base = {0: 0, 1: 1, 2: 2, 4: 3}
     gen = Gen(rng, G, base)
     nprog = c.pick(300, 1200)
@@ -276,15 +441,22 @@ def main(c):
               ("assign", 4, ("lit", 1)), ("scale", 4, ("lit", 3)), ("scale", 4, V(6)), ("scale", 4, V(1)),
               ("eval", ("pow", 1, 2, ("mul", V(4), V(1)))), ("eval", ("add", V(11), ("pow", 1, 2, ("mul", V(0), ("pow", -2, 1, V(2)))))),
               ("eval", ("add", V(6), ("lit", 1))), ("eval", ("add", V(4), ("lit", 1))), ("eval", ("div", ("lit", 1), V(2))),
-              ("cmp", ("div", ("lit", 1), V(2)), V(12)), ("eval", ("sub", ("mul", V(0), V(7)), ("mul", V(5), V(2))))]
+              ("cmp", ("div", ("lit", 1), V(2)), V(12)), ("eval", ("sub", ("mul", V(0), V(7)), ("mul", V(5), V(2)))),
+              # quotients of rational exponents with DIFFERENT denominators (unit::subtract cross-multiplies)
+              ("eval", ("div", ("pow", 1, 2, V(1)), ("pow", 1, 3, V(1)))), ("eval", ("div", V(11), V(13))),
+              ("eval", ("div", ("pow", 1, 3, V(4)), V(11))), ("cmp", ("div", V(13), ("pow", 1, 2, V(1))), ("pow", -1, 6, V(1)))]
+    ncorpus = len(corpus)
     progs = corpus + progs
     if c.replay and "stmt" in c.replay.get("replay", {}):
         progs.insert(0, eval(c.replay["replay"]["stmt"]))
     n = len(progs)
     # ---- translation unit 1 (built in a thread while Coq runs): g++'s verdict per line, and the unit it computes
     from concurrent.futures import ThreadPoolExecutor
-    pool = ThreadPoolExecutor(max_workers=1)
+    pool = ThreadPoolExecutor(max_workers=1)      # one compiler job in the background while coqc runs: 2 jobs at most
     fut = pool.submit(build_verdicts, c, progs, G)
+    X = ext_prepare(c)
+    X["fut"] = [pool.submit(ext.build_verdicts, c, "xverdicts%d" % j, X["progs"][a:b], a, X["D"], cpp_unit) for j, (a, b) in enumerate(X["chunks"])]
+    X["model"], X["model_err"] = None, "extended model not evaluated"
     # ---- model verdicts (vm_compute)
     model = []
     CH = 1000
@@ -294,24 +466,29 @@ def main(c):
                "Definition enc (s : stmt) : list Z := ((if accepts G s then 1 else 0) :: match s with Eval e => match typeof G e with "
                "Some TS => [1] | Some (TQ u) => 2 :: flat_map (fun q => [Qnum q; Zpos (Qden q)]) u | None => [0] end | _ => [] end)%Z.\n"
                "Eval vm_compute in map enc [" + ";\n ".join(coq_s(s) for s in progs[k0:k0 + CH]) + "].\n")
+        if k0 == 0:    # the first chunk of the extension is evaluated by the same coqc call
+            txt += ext.model_text(X["progs"][:ext.CH], X["D"], coq_unit)
         rc, o, e = c.coq_eval(["C20Spec.v", "C20Model.v"], txt)
         if rc != 0:
             c.report("model-eval", "evaluation of the Gallina model failed: " + e[-600:], {"stderr": e[-3000:]}, False)
             return
-        body = o[o.index("=") + 1:o.rindex(":")]
-        rows = re.findall(r"\[([^\[\]]*)\]", body)
-        rows = [[int(x.replace("(", "").replace(")", "").replace("%Z", "")) for x in r.split(";") if x.strip()] for r in rows]
+        blocks = ext.parse_blocks(o)
+        rows = blocks[0] if blocks else []
+        if k0 == 0 and len(blocks) == 2 and len(blocks[1]) == len(X["progs"][:ext.CH]):
+            X["model"] = blocks[1]
         if len(rows) != len(progs[k0:k0 + CH]):
             c.report("model-eval-count", "model evaluation returned %d rows for %d programs" % (len(rows), len(progs[k0:k0 + CH])), {}, False)
             return
         model += rows
+    if X["model"] is not None and len(X["progs"]) > ext.CH:
+        more, X["model_err"] = ext.model_eval(c, X["progs"][ext.CH:], X["D"], coq_unit)
+        X["model"] = None if more is None else X["model"] + more
     c.log("model evaluated")
     # ---- proofs (while the verdict program compiles)
     res = c.coq(["C20Spec.v", "C20Model.v", "C20Proofs.v", "Properties_C20.v"], timeout=900)
     c.log("coq done")
     nv = len(G)
     rc, out, err = fut.result()
-    pool.shutdown()
     if rc != 0:
         c.report("run-verdicts", "verdict program failed: " + err[-300:], {}, False)
         return
@@ -396,10 +573,11 @@ def main(c):
     if any(v > 4 for v in ncat.values()):
         c.notes.append("failing programs per category (first 4 of each reported): %s" % ncat)
     c.coverage["traces_validated_against_impl"] = n + nval
-    c.coverage["rule"] = ("%d statements (18 corpus + %d seeded; kinds eval/compare/assign/scale; 13 declared units incl. one unnamed integer and one "
-                          "rational-exponent unit; sums built homogeneous / near-miss / random), g++ accepted %d; per statement: g++ verdict = model verdict = "
+    c.coverage["rule"] = ("%d statements (%d corpus + %d seeded; kinds eval/compare/assign/scale; 14 declared units incl. one unnamed integer and two "
+                          "rational-exponent units (denominators 2 and 3); sums built homogeneous / near-miss / random), g++ accepted %d; per statement: g++ verdict = model verdict = "
                           "exact dimensional analysis, unit computed by g++ = model's exponents; %d accepted expressions compared bit for bit with the "
-                          "computation on plain doubles" % (n, nprog, nacc, nval))
+                          "computation on plain doubles" % (n, ncorpus, nprog, nacc, nval))
+    c.coverage["rule"] += "; EXTENSION: " + ext_compare(c, X, pool)
     if not res.ok:
         if c.violations and any(v[3] for v in c.violations):
             c.notes.append("proof obligations failed: %s; concrete failing programs reported above" % [f[2] for f in res.failed])
